@@ -306,6 +306,123 @@ fn rule_coq(r: &Rule) -> String {
     }
 }
 
+
+/// a fully specified case (used by the deterministic boundary family)
+#[derive(Clone, Debug)]
+struct Over {
+    rule: Rule,
+    fallback: bool,
+    via_account: bool,
+    signers: Vec<u64>,
+    ed_signer: bool,
+    placements: Vec<Placement>,
+    drop_sigs: bool,
+    simulate: bool,
+}
+
+/// Deterministic boundary family, identical for every seed: every connective at its edge cases
+/// (empty / single / duplicate lists, count 0 / = length / length + 1, amount exactly equal and one
+/// atto either side), every kind of badge (signature, simulated signature, resource proof,
+/// non-fungible id in / not in a proof, package-of-direct-caller and global-caller badges) in both
+/// call shapes, proofs popped out of the auth zone, dropped signature proofs, owner fallback.
+fn boundary_cases() -> Vec<(String, Over)> {
+    let k = |i: u64| Ron::NF(SIG_SECP, i);
+    let base = |rule: Rule| Over { rule, fallback: false, via_account: false, signers: vec![0], ed_signer: false, placements: vec![], drop_sigs: false, simulate: false };
+    let prot = |b: Basic| Rule::Protected(Comp::Basic(b));
+    let fa = |amt: i128, popped: bool| Placement { res: 1, amt, ids: vec![], popped };
+    let na = |ids: Vec<u64>, popped: bool| Placement { res: 3, amt: ids.len() as i128 * UNIT, ids, popped };
+    let mut v: Vec<(String, Over)> = Vec::new();
+    let mut add = |class: &str, o: Over| v.push((class.to_string(), o));
+    // CountOf
+    for (n, l) in [
+        (0u8, vec![]), (0, vec![k(1)]), (1, vec![]), (1, vec![k(0)]), (1, vec![k(1)]), (1, vec![k(1), k(0)]), (1, vec![k(0), k(1)]),
+        (2, vec![k(0), k(1)]), (2, vec![k(0), k(0)]), (2, vec![k(0), k(1), k(0)]), (3, vec![k(0), k(0), k(0)]), (3, vec![k(0), k(0)]),
+        (2, vec![k(1), k(0), k(2)]), (255, vec![k(0)]),
+    ] {
+        add("bnd_count_of", base(prot(Basic::CountOf(n, l.clone()))));
+        let mut o = base(prot(Basic::CountOf(n, l)));
+        o.signers = vec![0, 2];
+        add("bnd_count_of", o);
+    }
+    // AmountOf: exactly equal, one atto either side, zero with / without a proof, two proofs that only sum up,
+    // non-fungible proof amount, popped proof
+    for (req, have) in [(5 * UNIT, vec![5 * UNIT]), (5 * UNIT, vec![5 * UNIT - 1]), (5 * UNIT, vec![5 * UNIT + 1]), (5 * UNIT + 1, vec![5 * UNIT]),
+                        (5 * UNIT - 1, vec![5 * UNIT]), (0, vec![1]), (0, vec![]), (1, vec![1]), (5 * UNIT, vec![3 * UNIT, 2 * UNIT]),
+                        (5 * UNIT, vec![UNIT, 5 * UNIT]), (100 * UNIT, vec![100 * UNIT]), (-UNIT, vec![])] {
+        let mut o = base(prot(Basic::AmountOf(req, 1)));
+        o.placements = have.iter().map(|a| fa(*a, false)).collect();
+        add("bnd_amount_of", o);
+    }
+    {
+        let mut o = base(prot(Basic::AmountOf(5 * UNIT, 1)));
+        o.placements = vec![fa(5 * UNIT, true)];
+        add("bnd_amount_of", o);
+        let mut o = base(prot(Basic::AmountOf(2 * UNIT, 3)));
+        o.placements = vec![na(vec![1, 2], false)];
+        add("bnd_amount_of", o);
+        let mut o = base(prot(Basic::AmountOf(2 * UNIT + 1, 3)));
+        o.placements = vec![na(vec![1, 2], false)];
+        add("bnd_amount_of", o);
+        let mut o = base(prot(Basic::AmountOf(5 * UNIT, 2)));
+        o.placements = vec![fa(5 * UNIT, false)]; // proof of another resource
+        add("bnd_amount_of", o);
+    }
+    // AllOf / AnyOf / composite: empty, single, first / last decides
+    for l in [vec![], vec![k(0)], vec![k(1)], vec![k(0), k(1)], vec![k(1), k(0)], vec![k(0), k(0)]] {
+        add("bnd_all_any", base(prot(Basic::AllOf(l.clone()))));
+        add("bnd_all_any", base(prot(Basic::AnyOf(l.clone()))));
+        let cs: Vec<Comp> = l.iter().map(|r| Comp::Basic(Basic::Require(r.clone()))).collect();
+        add("bnd_all_any", base(Rule::Protected(Comp::AllOf(cs.clone()))));
+        add("bnd_all_any", base(Rule::Protected(Comp::AnyOf(cs))));
+    }
+    add("bnd_all_any", base(Rule::Protected(Comp::AllOf(vec![Comp::AnyOf(vec![]), Comp::Basic(Basic::Require(k(0)))]))));
+    add("bnd_all_any", base(Rule::Protected(Comp::AnyOf(vec![Comp::AllOf(vec![]), Comp::Basic(Basic::Require(k(1)))]))));
+    add("bnd_all_any", base(Rule::Protected(Comp::AnyOf(vec![Comp::AllOf(vec![Comp::AnyOf(vec![Comp::AllOf(vec![Comp::Basic(Basic::Require(k(0)))])])])]))));
+    add("bnd_all_any", base(Rule::AllowAll));
+    add("bnd_all_any", base(Rule::DenyAll));
+    // Require: each kind of badge, present / absent
+    for (r, pl) in [
+        (Ron::Res(1), vec![fa(1, false)]), (Ron::Res(1), vec![]), (Ron::Res(1), vec![fa(1, true)]), (Ron::Res(3), vec![na(vec![2], false)]),
+        (Ron::NF(3, 2), vec![na(vec![2], false)]), (Ron::NF(3, 2), vec![na(vec![1, 3], false)]), (Ron::NF(3, 2), vec![na(vec![1], false), na(vec![3, 2], false)]),
+        (Ron::NF(3, 4), vec![na(vec![1, 2, 3], false)]), (Ron::NF(4, 1), vec![na(vec![1], false)]), (Ron::NF(3, 2), vec![na(vec![2], true)]),
+        (Ron::Res(SIG_SECP), vec![]), (Ron::NF(SIG_ED, 0), vec![]),
+    ] {
+        let mut o = base(prot(Basic::Require(r)));
+        o.placements = pl;
+        add("bnd_require", o);
+    }
+    for (sig, signers, ed, drop, sim) in [(k(0), vec![0u64], false, false, false), (k(0), vec![1], false, false, false), (k(0), vec![], false, false, false),
+                                          (k(0), vec![0], false, true, false), (k(1), vec![0], false, false, true), (k(1), vec![0], false, true, true),
+                                          (Ron::NF(SIG_ED, 0), vec![], true, false, false), (Ron::NF(SIG_ED, 0), vec![0], false, false, true),
+                                          (Ron::Res(SIG_SECP), vec![0], false, false, true), (k(2), vec![0, 1, 2], true, false, false)] {
+        let mut o = base(prot(Basic::Require(sig)));
+        o.signers = signers;
+        o.ed_signer = ed;
+        o.drop_sigs = drop;
+        o.simulate = sim;
+        add("bnd_signatures", o);
+    }
+    // implicit badges and visibility in both call shapes; owner fallback in both
+    for via in [false, true] {
+        for r in [Ron::NF(PKG_RES, TP_PKG), Ron::NF(PKG_RES, ACCOUNT_PKG), Ron::NF(PKG_RES, OTHER_PKG), Ron::NF(GC_RES, TP_GC), Ron::NF(GC_RES, OTHER_GC),
+                  Ron::Res(PKG_RES), Ron::Res(GC_RES), k(0), k(1), Ron::Res(1), Ron::NF(3, 1)] {
+            let mut o = base(prot(Basic::Require(r)));
+            o.via_account = via;
+            o.placements = vec![fa(UNIT, false), na(vec![1], false)];
+            add("bnd_call_shapes", o.clone());
+            o.fallback = true;
+            add("bnd_call_shapes", o);
+        }
+        let mut o = base(prot(Basic::AmountOf(UNIT, 1)));
+        o.via_account = via;
+        o.placements = vec![fa(UNIT, false)];
+        add("bnd_call_shapes", o.clone());
+        o.placements = vec![fa(UNIT - 1, false)];
+        add("bnd_call_shapes", o);
+    }
+    v
+}
+
 #[derive(Debug, PartialEq)]
 enum Outcome {
     Authorized,
@@ -327,16 +444,23 @@ fn main() {
     let mut cw = CaseWriter::new("RV.Corr.C08_run RV.Model.C08_Auth", "check");
     let root = Rng::new(args.seed);
     let mut w = World::new();
-    for i in 0..args.cases {
+    let bnd = boundary_cases();
+    for i in 0..args.cases.max(bnd.len()) {
         let mut rng = root.fork(i as u64);
-        let rule = gen_rule(&mut rng);
-        let fallback = rng.chance(1, 4);
+        let ov: Option<&Over> = bnd.get(i).map(|x| &x.1);
+        if let Some((class, _)) = bnd.get(i) {
+            report.count(class);
+        } else {
+            report.count("random_cases");
+        }
+        let rule = match ov { Some(o) => o.rule.clone(), None => gen_rule(&mut rng) };
+        let fallback = match ov { Some(o) => o.fallback, None => rng.chance(1, 4) };
         let other = gen_rule(&mut rng);
         // shape of the protected call:
         //   direct:      manifest -> resource.mint            (role minter)
         //   via account: manifest -> account.withdraw -> vault.take  (role withdrawer of the resource; the vault's
         //                frame has the account's zone as parent and the account's global caller copied)
-        let via_account = rng.chance(1, 3);
+        let via_account = match ov { Some(o) => o.via_account, None => rng.chance(1, 3) };
         // role table of the new resource: role = rule (owner = other), or the role falls to owner = rule
         let (role_def, owner_rule) = if fallback { (None, rule.clone()) } else { (Some(w.rule(&rule)), other.clone()) };
         let roles = if via_account {
@@ -369,10 +493,10 @@ fn main() {
             }
         };
         // signers and proof placement
-        let signers: Vec<u64> = (0..3).filter(|_| rng.chance(2, 5)).collect();
-        let ed_signer = rng.chance(1, 5);
-        let mut placements = Vec::new();
-        for _ in 0..rng.below(4) {
+        let signers: Vec<u64> = match ov { Some(o) => o.signers.clone(), None => (0..3).filter(|_| rng.chance(2, 5)).collect() };
+        let ed_signer = match ov { Some(o) => o.ed_signer, None => rng.chance(1, 5) };
+        let mut placements: Vec<Placement> = match ov { Some(o) => o.placements.clone(), None => Vec::new() };
+        for _ in 0..(if ov.is_some() { 0 } else { rng.below(4) }) {
             let res = rng.range(1, 4);
             let (amt, ids) = match res {
                 1 => (*rng.pick(&[UNIT, 5 * UNIT, 50 * UNIT, 100 * UNIT, 1]), vec![]),
@@ -398,7 +522,7 @@ fn main() {
                 Comp::AnyOf(l) | Comp::AllOf(l) => l.iter().for_each(|c| amounts(c, out)),
             }
         }
-        if let Rule::Protected(c) = &rule {
+        if let (Rule::Protected(c), None) = (&rule, ov) {
             let mut am = Vec::new();
             amounts(c, &mut am);
             for (a, r) in am {
@@ -409,8 +533,8 @@ fn main() {
                 }
             }
         }
-        let drop_sigs = rng.chance(1, 10);
-        let simulate = rng.chance(1, 10);
+        let drop_sigs = match ov { Some(o) => o.drop_sigs, None => rng.chance(1, 10) };
+        let simulate = match ov { Some(o) => o.simulate, None => rng.chance(1, 10) };
 
         let mut instrs: Vec<InstructionV1> = vec![InstructionV1::CallMethod(CallMethod {
             address: ManifestGlobalAddress::Static(FAUCET.into()),
@@ -596,6 +720,13 @@ fn main() {
     report.floor("unauthorized", (args.cases as u64) / 8);
     report.floor("owner_fallback", (args.cases as u64) / 10);
     report.floor("via_account_vault_chain", (args.cases as u64) / 6);
+    let mut per_class: std::collections::BTreeMap<String, u64> = Default::default();
+    for (c, _) in &bnd {
+        *per_class.entry(c.clone()).or_insert(0) += 1;
+    }
+    for (c, n) in per_class {
+        report.floor(&c, n);
+    }
     cw.write(&args.out, args.shards).unwrap();
     report.write(&args.out).unwrap();
 }
